@@ -161,6 +161,38 @@ let handle (line:string) : string =
   | Atom "wfcore" :: Atom late :: tree :: _ ->
       let c = flatten (late = "1") (tree_of tree) in
       b2s (wf_coreb c && (match (st c O).fs_type with FCompound -> true | _ -> false))
+  | Atom "eqguard" :: Atom vflags :: Atom late :: Atom fuel :: tree :: L evs :: _ ->
+      (* C03: static and dynamic side conditions of fast_large_run_equiv, evaluated along the large model's run *)
+      let c = flatten (late = "1") (tree_of tree) in
+      let ch = eq_chartb c in
+      let g = ch && eq_guard_run (bits vflags 3) c (nat_of_int (int_of_string fuel)) l_pristine x_init
+                      (List.map (fun e -> bytes_of_hex (atom e)) evs) in
+      b2s ch ^ b2s g
+  | Atom "runguard" :: Atom late :: Atom fuel :: tree :: L evs :: _ ->
+      (* C01: hypotheses of run_conforms: static conditions, the dynamic guard along the large model's run, run complete *)
+      let c = flatten (late = "1") (tree_of tree) in
+      let es = List.map (fun e -> bytes_of_hex (atom e)) evs in
+      let f = nat_of_int (int_of_string fuel) in
+      let s = static_okb c in
+      b2s s ^ b2s (s && run_guardb c es f) ^ b2s (s && run_completeb c es f)
+  | Atom "reach" :: Atom late :: tree :: _ ->
+      (* which theorems' hypotheses the document / its flat tables satisfy *)
+      let t = tree_of tree in
+      let c = flatten (late = "1") t in
+      let root = (match (st c O).fs_type with FCompound -> true | _ -> false) in
+      String.concat "" (List.map b2s [wf_coreb c && root; wf_initb c && root; wf_histb c && root; wf_fastb c && root;
+                                      core_treeb t; c01_treeb t; eq_chartb c])
+  | Atom "tc" :: Atom late :: tree :: toks ->
+      (* the completeness checker of TraceComplete.v on a trace with RET/CFG tokens; CFG carries the sids *)
+      let c = flatten (late = "1") (tree_of tree) in
+      let tok_cfg s =
+        if starts s "CFG:" then
+          TCfg (List.map (fun x -> n_of_int (int_of_string x)) (List.filter (fun x -> x <> "") (String.split_on_char ',' (after s 4))))
+        else tok_of s in
+      let tl = List.map (fun a -> tok_cfg (atom a)) toks in
+      if not (sids_distinctb c && raise_names_okb c) then "- hypotheses"
+      else if trace_completeb (sid_pos c) tl then "1" else
+        (match tc_first_bad (sid_pos c) tc_init tl O with Some k -> "0 " ^ string_of_int (int_of_nat k) | None -> "0 ?")
   | Atom "wf" :: toks ->
       let tl = List.map (fun a -> tok_of (atom a)) toks in
       if wf_traceb tl then "1" else
